@@ -1118,8 +1118,13 @@ func knownNonNil(v ssa.Value) bool {
 	case *ssa.MakeInterface, *ssa.Alloc, *ssa.MakeClosure, *ssa.MakeMap, *ssa.MakeChan, *ssa.MakeSlice, *ssa.FieldAddr, *ssa.IndexAddr, *ssa.Function:
 		return true
 	case *ssa.Call:
+		// constructors of the standard library and of the module's dependencies that are
+		// documented to return a usable (non-nil) object: a nil test of their result is dead code
 		switch calleeName(&x.Call) {
-		case "fmt.Errorf", "errors.New":
+		case "fmt.Errorf", "errors.New",
+			"crypto/hmac.New", "crypto/sha1.New", "crypto/sha256.New", "crypto/md5.New",
+			"github.com/google/gopacket.NewSerializeBuffer", "github.com/prometheus/client_golang/prometheus.NewTimer",
+			"github.com/cenkalti/backoff/v4.NewExponentialBackOff", "github.com/cenkalti/backoff/v4.WithContext":
 			return true
 		}
 	case *ssa.UnOp:
